@@ -47,13 +47,13 @@ Definition exact_len (h : nat * option nat) : res unit nat :=
     DoublePriorityQueue: a front and a back cursor. *)
 Record imstate := mkIm { im_pos : nat; im_end : nat }.
 
-Definition im_new (s : store) : imstate := mkIm 0 (length (map s)).
+Definition im_new (s : store) : imstate := mkIm 0 (length (smap s)).
 
 Definition im_yield (s : store) (slot : nat) (w : P -> P) (u : I -> I)
   : store * option (nat * (I * P)) :=
-  match map s !! slot with
+  match smap s !! slot with
   | Some e => let e' := (u e.1, w e.2) in
-              (set_map s (<[slot := e']> (map s)), Some (slot, e'))
+              (set_map s (<[slot := e']> (smap s)), Some (slot, e'))
   | None => (s, None)
   end.
 
@@ -111,8 +111,8 @@ Definition sorted_it (k : kind) (s : store) (x : istep) : option (R (store * sou
   | KPQ, _ => None
   | KDPQ, INext _ _ => Some ('(r, s') ← pop_min ple s; Ok (s', SElem r))
   | KDPQ, INextBack _ _ => Some ('(r, s') ← pop_max ple s; Ok (s', SElem r))
-  | KDPQ, ILen => Some (Ok (s, SLen (Ok (size s))))
-  | KDPQ, ISizeHint => Some (Ok (s, SHint (size s) (Some (size s))))
+  | KDPQ, ILen => Some (Ok (s, SLen (Ok (ssize s))))
+  | KDPQ, ISizeHint => Some (Ok (s, SHint (ssize s) (Some (ssize s))))
   end.
 
 (** ** std adaptors: the calls made on the adaptor, translated into calls on
